@@ -1,2 +1,6 @@
 -- Root of the `RainModel` library: models, lemmas, property theorems.
 import RainModel.Model.Blocks
+import RainModel.Model.Request
+import RainModel.Model.Cache
+import RainModel.Model.CachedPiece
+import RainModel.Model.WriteQueue
